@@ -50,19 +50,19 @@ theorem valOf_write_away (w : Nat) (m : Mem) (F d x : Nat) (u : Opd) (h : Away w
   | slot s => simp only [Away] at h; simp only [valOf]; exact Mem.readLE_writeLE_disj _ _ _ _ _ _ (by omega)
 
 section
-variable {p : Prog} {ck : Bool} {B : Nat} {pc : Nat} {m : Mem} {F D : Nat}
+variable {p : Prog} {ck : Bool} {B : Nat} {dA : Nat} {pc : Nat} {m : Mem} {F D : Nat}
 
 theorem placed_one {i : Instr} (h : PlacedAt p pc [i]) : p.code[pc]? = some i := by
   simpa using h 0 (by simp)
 
-theorem ld_reach (hw : 2 ≤ p.w) (fr : Fr p m F D) (r s : Nat) (h : PlacedAt p pc [ldSlot (cxOf p ck B) r s])
+theorem ld_reach (hw : 2 ≤ p.w) (fr : Fr p m F D) (r s : Nat) (h : PlacedAt p pc [ldSlot (cxOf p ck B dA) r s])
     (hs0 : p.w ≤ s) (hsD : s ≤ D) (hr : r + p.w ≤ 5 * p.w) :
     Reach (sphinx p) ⟨pc, m⟩ [] ⟨pc + 1, m.writeLE r p.w (m.readLE (F - s) p.w)⟩ := by
   have := Reach.of_next (sys := sphinx p) (step_ldSlot ck B r s hw fr (placed_one h) hs0 hsD hr)
   simpa [evl] using this
 
 theorem st_reach (hw : 2 ≤ p.w) (fr : Fr p m F D) (s : Nat) (v : Arg) (x : Nat)
-    (h : PlacedAt p pc [stSlot (cxOf p ck B) s v]) (hv : evalArg p ⟨pc, m⟩ v = some x)
+    (h : PlacedAt p pc [stSlot (cxOf p ck B dA) s v]) (hv : evalArg p ⟨pc, m⟩ v = some x)
     (hs0 : p.w ≤ s) (hsD : s ≤ D) :
     Reach (sphinx p) ⟨pc, m⟩ [] ⟨pc + 1, m.writeLE (F - s) p.w x⟩ := by
   have := Reach.of_next (sys := sphinx p) (step_stSlot ck B s v x hw fr (placed_one h) hv hs0 hsD)
@@ -82,17 +82,17 @@ def Gettable (w D : Nat) : Opd → Prop
   | .slot s => w ≤ s ∧ s ≤ D
 
 section
-variable {p : Prog} {ck : Bool} {B : Nat} {pc : Nat} {m : Mem} {F D : Nat}
+variable {p : Prog} {ck : Bool} {B : Nat} {dA : Nat} {pc : Nat} {m : Mem} {F D : Nat}
 
 /-- `value.get(r)`: at most one load; afterwards the result is an operand denoting the same value -/
 theorem getOp_ok (hw : 2 ≤ p.w) (fr : Fr p m F D) (r : Nat) (v : Opd)
     (hr : 2 * p.w ≤ r ∧ r + p.w ≤ 5 * p.w) (hv : Gettable p.w D v)
-    (h : PlacedAt p pc (getOp (cxOf p ck B) r v).1) :
-    ∃ m', Reach (sphinx p) ⟨pc, m⟩ [] ⟨pc + (getOp (cxOf p ck B) r v).1.length, m'⟩ ∧
+    (h : PlacedAt p pc (getOp (cxOf p ck B dA) r v).1) :
+    ∃ m', Reach (sphinx p) ⟨pc, m⟩ [] ⟨pc + (getOp (cxOf p ck B dA) r v).1.length, m'⟩ ∧
       Keep p.w m m' (5 * p.w) ∧
-      valOf p.w m' F (getOp (cxOf p ck B) r v).2 = valOf p.w m F v ∧
+      valOf p.w m' F (getOp (cxOf p ck B dA) r v).2 = valOf p.w m F v ∧
       (∀ u, Away p.w F r u → valOf p.w m' F u = valOf p.w m F u) ∧
-      IsArg p.w (getOp (cxOf p ck B) r v).2 := by
+      IsArg p.w (getOp (cxOf p ck B dA) r v).2 := by
   cases v with
   | imm i => exact ⟨m, by simpa [getOp] using Reach.refl, Keep.refl _ _ _, rfl, fun _ _ => rfl, trivial⟩
   | reg a => exact ⟨m, by simpa [getOp] using Reach.refl, Keep.refl _ _ _, rfl, fun _ _ => rfl, hv⟩
@@ -100,7 +100,7 @@ theorem getOp_ok (hw : 2 ≤ p.w) (fr : Fr p m F D) (r : Nat) (v : Opd)
     obtain ⟨hs0, hsD⟩ := hv
     have hroom := fr.room; have htop := fr.top
     refine ⟨m.writeLE r p.w (m.readLE (F - s) p.w), ?_, ?_, ?_, ?_, ?_⟩
-    · simpa [getOp] using ld_reach (ck := ck) (B := B) hw fr r s (by simpa [getOp] using h) hs0 hsD hr.2
+    · simpa [getOp] using ld_reach (ck := ck) (dA := dA) (B := B) hw fr r s (by simpa [getOp] using h) hs0 hsD hr.2
     · exact Keep.write _ _ _ _ _ _ hr.1 hr.2
     · simp only [getOp]
       exact valOf_wreg_same _ _ _ _ _ (Mem.readLE_lt _ _ _) (by omega)
@@ -119,11 +119,11 @@ theorem aluOp_guard {M n : Nat} {op : AOp} {x y z : Nat} (h : aluOp M n (aluOf o
 theorem arith_ok (lib : Placed p B) (fr : Fr p m F D) (op : AOp) (rout : Nat) (va vb : Opd) (x y : Nat)
     (hrout : 2 * p.w ≤ rout ∧ rout + p.w ≤ 5 * p.w)
     (ha : IsArg p.w va) (hb : IsArg p.w vb) (hx : valOf p.w m F va = x) (hy : valOf p.w m F vb = y)
-    (h : PlacedAt p pc (arith (cxOf p ck B) pc op rout (va.arg (cxOf p ck B)) (vb.arg (cxOf p ck B))))
-    (hB : pc + (arith (cxOf p ck B) pc op rout (va.arg (cxOf p ck B)) (vb.arg (cxOf p ck B))).length ≤ B) :
+    (h : PlacedAt p pc (arith (cxOf p ck B dA) pc op rout (va.arg (cxOf p ck B dA)) (vb.arg (cxOf p ck B dA))))
+    (hB : pc + (arith (cxOf p ck B dA) pc op rout (va.arg (cxOf p ck B dA)) (vb.arg (cxOf p ck B dA))).length ≤ B) :
     (∀ z, aluOp (256 ^ p.w) (8 * p.w) (aluOf op) x y = some z →
       Reach (sphinx p) ⟨pc, m⟩ []
-        ⟨pc + (arith (cxOf p ck B) pc op rout (va.arg (cxOf p ck B)) (vb.arg (cxOf p ck B))).length,
+        ⟨pc + (arith (cxOf p ck B dA) pc op rout (va.arg (cxOf p ck B dA)) (vb.arg (cxOf p ck B dA))).length,
          m.writeLE rout p.w z⟩) ∧
     (aluOp (256 ^ p.w) (8 * p.w) (aluOf op) x y = none → ck = true →
       Reach (sphinx p) ⟨pc, m⟩ [] ⟨B + off_division_by_zero, m⟩) := by
@@ -131,7 +131,7 @@ theorem arith_ok (lib : Placed p B) (fr : Fr p m F D) (op : AOp) (rout : Nat) (v
   have h64 := mul_w_lt_pow p.w hw
   have hM := pow_ge2 p.w hw
   have hroom := fr.room; have htop := fr.top
-  have ea : evalArg p ⟨pc, m⟩ (va.arg (cxOf p ck B)) = some x := by
+  have ea : evalArg p ⟨pc, m⟩ (va.arg (cxOf p ck B dA)) = some x := by
     rw [← hx]; cases va <;> first | exact ev_opd ck B hw fr _ (by simpa [IsArg] using ha) | exact absurd ha (by simp [IsArg])
   have hBlt := lib.hB
   by_cases hg : (needsGuard op && ck) = true
@@ -140,11 +140,11 @@ theorem arith_ok (lib : Placed p B) (fr : Fr p m F D) (op : AOp) (rout : Nat) (v
     have c0 := h 0 (by simp); have c1 := h 1 (by simp); have c2 := h 2 (by simp)
     have c3 := h 3 (by simp); have c4 := h 4 (by simp)
     simp only [List.getElem_cons_succ, List.getElem_cons_zero, Nat.add_zero, List.length_cons, List.length_nil] at c0 c1 c2 c3 c4 hB
-    have eb1 : evalArg p ⟨pc + 1, m⟩ (vb.arg (cxOf p ck B)) = some y := by
+    have eb1 : evalArg p ⟨pc + 1, m⟩ (vb.arg (cxOf p ck B dA)) = some y := by
       rw [← hy]; cases vb <;> first | exact ev_opd ck B hw fr _ (by simpa [IsArg] using hb) | exact absurd hb (by simp [IsArg])
-    have eb4 : evalArg p ⟨pc + 4, m⟩ (vb.arg (cxOf p ck B)) = some y := by
+    have eb4 : evalArg p ⟨pc + 4, m⟩ (vb.arg (cxOf p ck B dA)) = some y := by
       rw [← hy]; cases vb <;> first | exact ev_opd ck B hw fr _ (by simpa [IsArg] using hb) | exact absurd hb (by simp [IsArg])
-    have ea4 : evalArg p ⟨pc + 4, m⟩ (va.arg (cxOf p ck B)) = some x := by
+    have ea4 : evalArg p ⟨pc + 4, m⟩ (va.arg (cxOf p ck B dA)) = some x := by
       rw [← hx]; cases va <;> first | exact ev_opd ck B hw fr _ (by simpa [IsArg] using ha) | exact absurd ha (by simp [IsArg])
     have s0 := step_j (m := m) c0 (ev_imm (pc + 4))
     rw [show (pc + 4) % p.M = pc + 4 from Nat.mod_eq_of_lt (by unfold Prog.M; omega)] at s0
@@ -179,7 +179,7 @@ theorem arith_ok (lib : Placed p B) (fr : Fr p m F D) (op : AOp) (rout : Nat) (v
   · -- unguarded
     simp only [arith, hg] at h hB ⊢
     have c0 := placed_one h
-    have eb : evalArg p ⟨pc, m⟩ (vb.arg (cxOf p ck B)) = some y := by
+    have eb : evalArg p ⟨pc, m⟩ (vb.arg (cxOf p ck B dA)) = some y := by
       rw [← hy]; cases vb <;> first | exact ev_opd ck B hw fr _ (by simpa [IsArg] using hb) | exact absurd hb (by simp [IsArg])
     refine ⟨fun z hz => ?_, fun hn hck => ?_⟩
     · have s := step_alu (m := m) c0 ea eb hz (by unfold Prog.M; omega) (by omega)
@@ -235,7 +235,7 @@ theorem cE_loc (cx : Cx) (Γ : Gam) (env : Env) (m : Mem) (F D : Nat) (e : E) (p
       simp only [shape, Loc, if_true]; omega
 
 section
-variable {p : Prog} {ck : Bool} {B : Nat} {pc : Nat} {m : Mem} {F D : Nat}
+variable {p : Prog} {ck : Bool} {B : Nat} {dA : Nat} {pc : Nat} {m : Mem} {F D : Nat}
 
 theorem ev_reg (hw : 2 ≤ p.w) (fr : Fr p m F D) (a : Nat) (ha : a + p.w ≤ 5 * p.w) :
     evalArg p ⟨pc, m⟩ (.st a) = some (m.readLE a p.w) := by
@@ -246,11 +246,11 @@ theorem ev_reg (hw : 2 ≤ p.w) (fr : Fr p m F D) (a : Nat) (ha : a + p.w ≤ 5 
 /-- the tail of `eval_expr`: push the register result when `keep` -/
 theorem finish_ok (hw : 2 ≤ p.w) (fr : Fr p m F D) (o rout : Nat) (keep : Bool) (c : List Instr) (m5 : Mem) (v : Nat)
     (hrout : rout = 2 * p.w ∨ rout = 3 * p.w)
-    (hpl : PlacedAt p pc (finish (cxOf p ck B) o rout keep c).1)
+    (hpl : PlacedAt p pc (finish (cxOf p ck B dA) o rout keep c).1)
     (hreach : Reach (sphinx p) ⟨pc, m⟩ [] ⟨pc + c.length, m5⟩) (hk : Keep p.w m m5 (F - o))
     (hv : m5.readLE rout p.w = v) (ho : p.w ≤ o) (hD : keep = true → o + p.w ≤ D) (hoD : o ≤ D) :
-    ∃ m', Reach (sphinx p) ⟨pc, m⟩ [] ⟨pc + (finish (cxOf p ck B) o rout keep c).1.length, m'⟩ ∧
-      Keep p.w m m' (F - o) ∧ valOf p.w m' F (finish (cxOf p ck B) o rout keep c).2.1 = v := by
+    ∃ m', Reach (sphinx p) ⟨pc, m⟩ [] ⟨pc + (finish (cxOf p ck B dA) o rout keep c).1.length, m'⟩ ∧
+      Keep p.w m m' (F - o) ∧ valOf p.w m' F (finish (cxOf p ck B dA) o rout keep c).2.1 = v := by
   cases keep with
   | false => exact ⟨m5, by simpa [finish] using hreach, hk, by simpa [finish, valOf] using hv⟩
   | true =>
@@ -261,7 +261,7 @@ theorem finish_ok (hw : 2 ≤ p.w) (fr : Fr p m F D) (o rout : Nat) (keep : Bool
     obtain ⟨_, h2⟩ := hpl.append
     have e := ev_reg (pc := pc + c.length) hw fr5 rout (by omega)
     rw [hv] at e
-    have st := st_reach (ck := ck) (B := B) hw fr5 (o + p.w) (.st rout) v h2 e (by omega) hoD'
+    have st := st_reach (ck := ck) (dA := dA) (B := B) hw fr5 (o + p.w) (.st rout) v h2 e (by omega) hoD'
     refine ⟨m5.writeLE (F - (o + p.w)) p.w v, ?_, ?_, ?_⟩
     · have := hreach.trans st
       simpa [List.length_append, Nat.add_assoc] using this
@@ -300,18 +300,18 @@ theorem getOp_res (cx : Cx) {w D o1 r : Nat} {v : Opd} (h : Loc w D o1 r v) :
   | slot s => exact Or.inr rfl
 
 section
-variable {p : Prog} {ck : Bool} {B : Nat}
+variable {p : Prog} {ck : Bool} {B : Nat} {dA : Nat}
 
 theorem cE_ok (lib : Placed p B) (Γ : Gam) (env : Env) (F D : Nat) :
     ∀ (e : E) (pc o rout : Nat) (keep : Bool) (m : Mem),
-      PlacedAt p pc (cE (cxOf p ck B) Γ pc o rout e keep).1 →
-      pc + (cE (cxOf p ck B) Γ pc o rout e keep).1.length ≤ B →
+      PlacedAt p pc (cE (cxOf p ck B dA) Γ pc o rout e keep).1 →
+      pc + (cE (cxOf p ck B dA) Γ pc o rout e keep).1.length ≤ B →
       (rout = 2 * p.w ∨ rout = 3 * p.w) →
       Fr p m F D → VarsOK p.w Γ env m F o → boundE (Γ.map Prod.fst) e = true →
       pkE p.w o e keep ≤ D → p.w ≤ o →
       (∀ v, evalE (256 ^ p.w) (8 * p.w) env e = some v →
-        ∃ m', Reach (sphinx p) ⟨pc, m⟩ [] ⟨pc + (cE (cxOf p ck B) Γ pc o rout e keep).1.length, m'⟩ ∧
-          Keep p.w m m' (F - o) ∧ valOf p.w m' F (cE (cxOf p ck B) Γ pc o rout e keep).2.1 = v ∧
+        ∃ m', Reach (sphinx p) ⟨pc, m⟩ [] ⟨pc + (cE (cxOf p ck B dA) Γ pc o rout e keep).1.length, m'⟩ ∧
+          Keep p.w m m' (F - o) ∧ valOf p.w m' F (cE (cxOf p ck B dA) Γ pc o rout e keep).2.1 = v ∧
           (isSafe e = true → m' = m)) ∧
       (evalE (256 ^ p.w) (8 * p.w) env e = none → ck = true →
         ∃ m', Reach (sphinx p) ⟨pc, m⟩ [] ⟨B + off_division_by_zero, m'⟩) := by
@@ -338,18 +338,18 @@ theorem cE_ok (lib : Placed p B) (Γ : Gam) (env : Env) (F D : Nat) :
     have hpk0 : pkE p.w o e false ≤ D := by simp only [pkE] at hpk; omega
     have hkD : keep = true → o + p.w ≤ D := by intro hk; subst hk; simp [pkE] at hpk; omega
     have hoD : o ≤ D := by have := pkE_ge p.w e o false; omega
-    rcases hce : cE (cxOf p ck B) Γ pc o rout e false with ⟨c, v0, p0⟩
-    rcases hg : getOp (cxOf p ck B) rout v0 with ⟨c', v'⟩
-    have hcode : cE (cxOf p ck B) Γ pc o rout (.neg e) keep
-        = finish (cxOf p ck B) o rout keep (c ++ c' ++ [.alu .sub rout (.imm 0) (v'.arg (cxOf p ck B))]) := by
+    rcases hce : cE (cxOf p ck B dA) Γ pc o rout e false with ⟨c, v0, p0⟩
+    rcases hg : getOp (cxOf p ck B dA) rout v0 with ⟨c', v'⟩
+    have hcode : cE (cxOf p ck B dA) Γ pc o rout (.neg e) keep
+        = finish (cxOf p ck B dA) o rout keep (c ++ c' ++ [.alu .sub rout (.imm 0) (v'.arg (cxOf p ck B dA))]) := by
       simp only [cE, hce, hg]
     rw [hcode] at hpl hB ⊢
     obtain ⟨hplc, hlen⟩ := finish_prefix _ _ _ _ _ hpl
     obtain ⟨hpl12, hpl3⟩ := hplc.append
     obtain ⟨hpl1, hpl2⟩ := hpl12.append
-    have hloc := cE_loc (cxOf p ck B) Γ env m F D e pc o rout false hvars hb hpk0 ho
+    have hloc := cE_loc (cxOf p ck B dA) Γ env m F D e pc o rout false hvars hb hpk0 ho
     rw [hce] at hloc
-    have h3 : (c ++ c' ++ [Instr.alu .sub rout (.imm 0) (v'.arg (cxOf p ck B))]).length = c.length + c'.length + 1 := by
+    have h3 : (c ++ c' ++ [Instr.alu .sub rout (.imm 0) (v'.arg (cxOf p ck B dA))]).length = c.length + c'.length + 1 := by
       simp only [List.length_append, List.length_cons, List.length_nil]
     have ih' := ih pc o rout false m (by rw [hce]; exact hpl1) (by rw [hce]; show pc + c.length ≤ B; omega) hrout fr hvars hb hpk0 ho
     rw [hce] at ih'
@@ -367,24 +367,24 @@ theorem cE_ok (lib : Placed p B) (Γ : Gam) (env : Env) (F D : Nat) :
         simp only [hea, Option.bind_some, aluOp, Option.some.injEq] at hv
         obtain ⟨m1, r1, k1, hv1, _⟩ := ih'.1 a hea
         have fr1 := fr.keep k1
-        have hgo := getOp_ok (ck := ck) (B := B) (pc := pc + c.length) hw fr1 rout v0 (by omega)
+        have hgo := getOp_ok (ck := ck) (dA := dA) (B := B) (pc := pc + c.length) hw fr1 rout v0 (by omega)
           (hloc0.gettable (by omega)) (by rw [hg]; exact hpl2)
         rw [hg] at hgo
         obtain ⟨m2, r2, k2, hv2, _, harg⟩ := hgo
         simp only at r2 hv2 harg
         have fr2 := fr1.keep k2
-        have eb := ev_opd (pc := pc + (c ++ c').length) ck B hw fr2 v' (by cases v' <;> simp_all [IsArg])
+        have eb := ev_opd (dA := dA) (pc := pc + (c ++ c').length) ck B hw fr2 v' (by cases v' <;> simp_all [IsArg])
         rw [hv2, hv1] at eb
         have s := step_alu (m := m2) (placed_one hpl3) (ev_imm 0) eb (r := v)
           (by simp only [aluOp, Prog.M, Nat.zero_mod]; rw [hv])
           (by unfold Prog.M; omega) (by have := fr2.top; omega)
         have r3 := Reach.of_next (sys := sphinx p) s
         have hreach : Reach (sphinx p) ⟨pc, m⟩ []
-            ⟨pc + (c ++ c' ++ [Instr.alu .sub rout (.imm 0) (v'.arg (cxOf p ck B))]).length, m2.writeLE rout p.w v⟩ := by
+            ⟨pc + (c ++ c' ++ [Instr.alu .sub rout (.imm 0) (v'.arg (cxOf p ck B dA))]).length, m2.writeLE rout p.w v⟩ := by
           have := r1.trans (r2.trans (by simpa [List.length_append, Nat.add_assoc] using r3))
           simpa [evl, List.length_append, Nat.add_assoc] using this
         have hvM : v < 256 ^ p.w := by rw [← hv]; exact Nat.mod_lt _ (by omega)
-        obtain ⟨m', rf, kf, hvf⟩ := finish_ok (ck := ck) (B := B) hw fr o rout keep _ (m2.writeLE rout p.w v) v hrout hpl hreach
+        obtain ⟨m', rf, kf, hvf⟩ := finish_ok (ck := ck) (dA := dA) (B := B) hw fr o rout keep _ (m2.writeLE rout p.w v) v hrout hpl hreach
           ((k1.trans' (k2.mono (by omega))).trans' (Keep.write _ _ _ _ _ _ (by omega) (by omega)))
           (by rw [Mem.readLE_writeLE_same _ _ _ _ (by rw [k2.size, k1.size]; omega)]; exact Nat.mod_eq_of_lt hvM)
           ho hkD hoD
@@ -401,19 +401,19 @@ theorem cE_ok (lib : Placed p B) (Γ : Gam) (env : Env) (F D : Nat) :
     have hpk0 : pkE p.w o e false ≤ D := by simp only [pkE] at hpk; omega
     have hkD : keep = true → o + p.w ≤ D := by intro hk; subst hk; simp [pkE] at hpk; omega
     have hoD : o ≤ D := by have := pkE_ge p.w e o false; omega
-    rcases hce : cE (cxOf p ck B) Γ pc o rout e false with ⟨c, v0, p0⟩
-    rcases hg : getOp (cxOf p ck B) rout v0 with ⟨c', v'⟩
-    have hcode : cE (cxOf p ck B) Γ pc o rout (.pos e) keep
-        = finish (cxOf p ck B) o rout keep
-            (c ++ c' ++ (if v' = .reg rout then [] else [.mov rout (v'.arg (cxOf p ck B))])) := by
+    rcases hce : cE (cxOf p ck B dA) Γ pc o rout e false with ⟨c, v0, p0⟩
+    rcases hg : getOp (cxOf p ck B dA) rout v0 with ⟨c', v'⟩
+    have hcode : cE (cxOf p ck B dA) Γ pc o rout (.pos e) keep
+        = finish (cxOf p ck B dA) o rout keep
+            (c ++ c' ++ (if v' = .reg rout then [] else [.mov rout (v'.arg (cxOf p ck B dA))])) := by
       simp only [cE, hce, hg]
     rw [hcode] at hpl hB ⊢
     obtain ⟨hplc, hlen⟩ := finish_prefix _ _ _ _ _ hpl
     obtain ⟨hpl12, hpl3⟩ := hplc.append
     obtain ⟨hpl1, hpl2⟩ := hpl12.append
-    have h3 : c.length ≤ (c ++ c' ++ (if v' = .reg rout then [] else [Instr.mov rout (v'.arg (cxOf p ck B))])).length := by
+    have h3 : c.length ≤ (c ++ c' ++ (if v' = .reg rout then [] else [Instr.mov rout (v'.arg (cxOf p ck B dA))])).length := by
       simp only [List.length_append]; omega
-    have hloc := cE_loc (cxOf p ck B) Γ env m F D e pc o rout false hvars hb hpk0 ho
+    have hloc := cE_loc (cxOf p ck B dA) Γ env m F D e pc o rout false hvars hb hpk0 ho
     rw [hce] at hloc
     have ih' := ih pc o rout false m (by rw [hce]; exact hpl1) (by rw [hce]; show pc + c.length ≤ B; omega) hrout fr hvars hb hpk0 ho
     rw [hce] at ih'
@@ -426,7 +426,7 @@ theorem cE_ok (lib : Placed p B) (Γ : Gam) (env : Env) (F D : Nat) :
     · simp only [evalE] at hv
       obtain ⟨m1, r1, k1, hv1, _⟩ := ih'.1 v hv
       have fr1 := fr.keep k1
-      have hgo := getOp_ok (ck := ck) (B := B) (pc := pc + c.length) hw fr1 rout v0 (by omega)
+      have hgo := getOp_ok (ck := ck) (dA := dA) (B := B) (pc := pc + c.length) hw fr1 rout v0 (by omega)
         (hloc0.gettable (by omega)) (by rw [hg]; exact hpl2)
       rw [hg] at hgo
       obtain ⟨m2, r2, k2, hv2, _, harg⟩ := hgo
@@ -445,19 +445,19 @@ theorem cE_ok (lib : Placed p B) (Γ : Gam) (env : Env) (F D : Nat) :
         have hreach : Reach (sphinx p) ⟨pc, m⟩ [] ⟨pc + (c ++ c').length, m2⟩ := by
           have := r1.trans r2
           simpa [List.length_append, Nat.add_assoc] using this
-        obtain ⟨m', rf, kf, hvf⟩ := finish_ok (ck := ck) (B := B) hw fr o rout keep _ m2 v hrout hpl hreach hk12
+        obtain ⟨m', rf, kf, hvf⟩ := finish_ok (ck := ck) (dA := dA) (B := B) hw fr o rout keep _ m2 v hrout hpl hreach hk12
           (by rw [hvr] at hv2; simpa [valOf] using hv2) ho hkD hoD
         exact ⟨m', rf, kf, hvf, fun hs => by simp [isSafe] at hs⟩
       · simp only [hvr, if_false] at hpl hB hpl3 ⊢
-        have eb := ev_opd (pc := pc + (c ++ c').length) ck B hw fr2 v' (by cases v' <;> simp_all [IsArg])
+        have eb := ev_opd (dA := dA) (pc := pc + (c ++ c').length) ck B hw fr2 v' (by cases v' <;> simp_all [IsArg])
         rw [hv2] at eb
         have s := step_mov (m := m2) (placed_one hpl3) eb (by unfold Prog.M; omega) (by have := fr2.top; omega)
         have r3 := Reach.of_next (sys := sphinx p) s
         have hreach : Reach (sphinx p) ⟨pc, m⟩ []
-            ⟨pc + (c ++ c' ++ [Instr.mov rout (v'.arg (cxOf p ck B))]).length, m2.writeLE rout p.w v⟩ := by
+            ⟨pc + (c ++ c' ++ [Instr.mov rout (v'.arg (cxOf p ck B dA))]).length, m2.writeLE rout p.w v⟩ := by
           have := r1.trans (r2.trans (by simpa [List.length_append, Nat.add_assoc] using r3))
           simpa [evl, List.length_append, Nat.add_assoc] using this
-        obtain ⟨m', rf, kf, hvf⟩ := finish_ok (ck := ck) (B := B) hw fr o rout keep _ (m2.writeLE rout p.w v) v hrout hpl hreach
+        obtain ⟨m', rf, kf, hvf⟩ := finish_ok (ck := ck) (dA := dA) (B := B) hw fr o rout keep _ (m2.writeLE rout p.w v) v hrout hpl hreach
           (hk12.trans' (Keep.write _ _ _ _ _ _ (by omega) (by omega)))
           (by rw [Mem.readLE_writeLE_same _ _ _ _ (by rw [k2.size, k1.size]; omega)]; exact Nat.mod_eq_of_lt hvM)
           ho hkD hoD
@@ -474,18 +474,18 @@ theorem cE_ok (lib : Placed p B) (Γ : Gam) (env : Env) (F D : Nat) :
       simp only [pkE] at hpk; omega
     have hkD : keep = true → o + p.w ≤ D := by intro hk; subst hk; simp [pkE] at hpk; omega
     have hoD : o ≤ D := by have := pkE_ge p.w l o (!isSafe r); omega
-    rcases hcl : cE (cxOf p ck B) Γ pc o (cxOf p ck B).r0 l (!isSafe r) with ⟨c1, vl, p1⟩
-    have hlocL := cE_loc (cxOf p ck B) Γ env m F D l pc o (cxOf p ck B).r0 (!isSafe r) hvars hbl hpkl ho
+    rcases hcl : cE (cxOf p ck B dA) Γ pc o (cxOf p ck B dA).r0 l (!isSafe r) with ⟨c1, vl, p1⟩
+    have hlocL := cE_loc (cxOf p ck B dA) Γ env m F D l pc o (cxOf p ck B dA).r0 (!isSafe r) hvars hbl hpkl ho
     rw [hcl] at hlocL
     obtain ⟨hp1, hlocl, hnoreg⟩ := hlocL
     simp only at hp1 hlocl hnoreg
-    rcases hcr : cE (cxOf p ck B) Γ (pc + c1.length) (if p1 = true then o + (cxOf p ck B).w else o) (cxOf p ck B).r1 r false
+    rcases hcr : cE (cxOf p ck B dA) Γ (pc + c1.length) (if p1 = true then o + (cxOf p ck B dA).w else o) (cxOf p ck B dA).r1 r false
       with ⟨c2, vr0, p2⟩
-    rcases hg2 : getOp (cxOf p ck B) (cxOf p ck B).r1 vr0 with ⟨c2', vr⟩
-    rcases hg3 : getOp (cxOf p ck B) (cxOf p ck B).r0 vl with ⟨c3, vl'⟩
-    have hcode : cE (cxOf p ck B) Γ pc o rout (.bin op l r) keep
-        = finish (cxOf p ck B) o rout keep (c1 ++ c2 ++ c2' ++ c3 ++
-            arith (cxOf p ck B) (pc + (c1 ++ c2 ++ c2' ++ c3).length) op rout (vl'.arg (cxOf p ck B)) (vr.arg (cxOf p ck B))) := by
+    rcases hg2 : getOp (cxOf p ck B dA) (cxOf p ck B dA).r1 vr0 with ⟨c2', vr⟩
+    rcases hg3 : getOp (cxOf p ck B dA) (cxOf p ck B dA).r0 vl with ⟨c3, vl'⟩
+    have hcode : cE (cxOf p ck B dA) Γ pc o rout (.bin op l r) keep
+        = finish (cxOf p ck B dA) o rout keep (c1 ++ c2 ++ c2' ++ c3 ++
+            arith (cxOf p ck B dA) (pc + (c1 ++ c2 ++ c2' ++ c3).length) op rout (vl'.arg (cxOf p ck B dA)) (vr.arg (cxOf p ck B dA))) := by
       simp only [cE, hcl, hcr, hg2, hg3]
     rw [hcode] at hpl hB ⊢
     obtain ⟨hplc, hlen⟩ := finish_prefix _ _ _ _ _ hpl
@@ -493,7 +493,7 @@ theorem cE_ok (lib : Placed p B) (Γ : Gam) (env : Env) (F D : Nat) :
     obtain ⟨hp123, hp3⟩ := hp1234.append
     obtain ⟨hp12, hp2'⟩ := hp123.append
     obtain ⟨hp1_, hp2⟩ := hp12.append
-    generalize hAdef : arith (cxOf p ck B) (pc + (c1 ++ c2 ++ c2' ++ c3).length) op rout (vl'.arg (cxOf p ck B)) (vr.arg (cxOf p ck B)) = A at *
+    generalize hAdef : arith (cxOf p ck B dA) (pc + (c1 ++ c2 ++ c2' ++ c3).length) op rout (vl'.arg (cxOf p ck B dA)) (vr.arg (cxOf p ck B dA)) = A at *
     have hlen5 : (c1 ++ c2 ++ c2' ++ c3 ++ A).length = c1.length + c2.length + c2'.length + c3.length + A.length := by
       simp only [List.length_append]
     have hlen4 : (c1 ++ c2 ++ c2' ++ c3).length = c1.length + c2.length + c2'.length + c3.length := by
@@ -501,7 +501,7 @@ theorem cE_ok (lib : Placed p B) (Γ : Gam) (env : Env) (F D : Nat) :
     have hlen3 : (c1 ++ c2 ++ c2').length = c1.length + c2.length + c2'.length := by simp only [List.length_append]
     have hlen2 : (c1 ++ c2).length = c1.length + c2.length := by simp only [List.length_append]
     -- left operand
-    have ihl' := ihl pc o (cxOf p ck B).r0 (!isSafe r) m (by rw [hcl]; exact hp1_)
+    have ihl' := ihl pc o (cxOf p ck B dA).r0 (!isSafe r) m (by rw [hcl]; exact hp1_)
       (by rw [hcl]; show pc + c1.length ≤ B; omega) (Or.inl rfl) fr hvars hbl hpkl ho
     rw [hcl] at ihl'
     simp only at ihl'
@@ -521,10 +521,10 @@ theorem cE_ok (lib : Placed p B) (Γ : Gam) (env : Env) (F D : Nat) :
       obtain ⟨m1, r1_, k1, hv1, _⟩ := ihl'.1 a hea
       have fr1 := fr.keep k1
       have hvars1 : VarsOK p.w Γ env m1 F (if p1 = true then o + p.w else o) := hvars.keep k1 (Nat.le_refl _) ho1
-      have ihr' := ihr (pc + c1.length) (if p1 = true then o + p.w else o) (cxOf p ck B).r1 false m1
+      have ihr' := ihr (pc + c1.length) (if p1 = true then o + p.w else o) (cxOf p ck B dA).r1 false m1
         (by rw [hcr]; exact hp2) (by rw [hcr]; show pc + c1.length + c2.length ≤ B; omega) (Or.inr rfl) fr1 hvars1 hbr hpkr' (by omega)
-      have hlocR := cE_loc (cxOf p ck B) Γ env m1 F D r (pc + c1.length) (if p1 = true then o + p.w else o)
-        (cxOf p ck B).r1 false hvars1 hbr hpkr' (by show p.w ≤ _; omega)
+      have hlocR := cE_loc (cxOf p ck B dA) Γ env m1 F D r (pc + c1.length) (if p1 = true then o + p.w else o)
+        (cxOf p ck B dA).r1 false hvars1 hbr hpkr' (by show p.w ≤ _; omega)
       rw [hcr] at ihr' hlocR
       simp only at ihr' hlocR
       obtain ⟨hp2f, hlocr, _⟩ := hlocR
@@ -546,10 +546,10 @@ theorem cE_ok (lib : Placed p B) (Γ : Gam) (env : Env) (F D : Nat) :
             simp only [valOf] at hv1 ⊢
             rw [k2.read _ _ (by omega)]; exact hv1
       -- load the right operand
-      have hgo2 := getOp_ok (ck := ck) (B := B) (pc := pc + (c1 ++ c2).length) hw fr2 (cxOf p ck B).r1 vr0
+      have hgo2 := getOp_ok (ck := ck) (dA := dA) (B := B) (pc := pc + (c1 ++ c2).length) hw fr2 (cxOf p ck B dA).r1 vr0
         (by show 2 * p.w ≤ 3 * p.w ∧ 3 * p.w + p.w ≤ 5 * p.w; omega)
         (hlocr.gettable (by show 3 * p.w + p.w ≤ 5 * p.w; omega)) (by rw [hg2]; exact hp2')
-      have hres2 := getOp_res (cxOf p ck B) hlocr
+      have hres2 := getOp_res (cxOf p ck B dA) hlocr
       rw [hg2] at hgo2 hres2
       obtain ⟨m3, r3_, k3, hv3, haway3, hargr⟩ := hgo2
       simp only at r3_ hv3 hargr hres2
@@ -558,7 +558,7 @@ theorem cE_ok (lib : Placed p B) (Γ : Gam) (env : Env) (F D : Nat) :
       have hvl3 : valOf p.w m3 F vl = a := by
         rw [haway3 vl (hlocl.away (d := 3 * p.w) (by show 2 * p.w + p.w ≤ 3 * p.w ∨ _; omega) (Nat.le_of_eq hroom) (by omega))]; exact hvl2
       -- load the left operand
-      have hgo3 := getOp_ok (ck := ck) (B := B) (pc := pc + (c1 ++ c2 ++ c2').length) hw fr3 (cxOf p ck B).r0 vl
+      have hgo3 := getOp_ok (ck := ck) (dA := dA) (B := B) (pc := pc + (c1 ++ c2 ++ c2').length) hw fr3 (cxOf p ck B dA).r0 vl
         (by show 2 * p.w ≤ 2 * p.w ∧ 2 * p.w + p.w ≤ 5 * p.w; omega)
         (hlocl.gettable (by show 2 * p.w + p.w ≤ 5 * p.w; omega)) (by rw [hg3]; exact hp3)
       rw [hg3] at hgo3
@@ -573,7 +573,7 @@ theorem cE_ok (lib : Placed p B) (Γ : Gam) (env : Env) (F D : Nat) :
           · rw [hi]; show 3 * p.w + p.w ≤ 2 * p.w ∨ 2 * p.w + p.w ≤ 3 * p.w; omega)]
         exact hv3
       -- the operation
-      have harith := arith_ok (ck := ck) (pc := pc + (c1 ++ c2 ++ c2' ++ c3).length) lib fr4 op rout vl' vr a b
+      have harith := arith_ok (ck := ck) (dA := dA) (pc := pc + (c1 ++ c2 ++ c2' ++ c3).length) lib fr4 op rout vl' vr a b
         (by omega) hargl hargr hv4 hvr4 (by rw [hAdef]; exact hpA) (by rw [hAdef]; omega)
       rw [hAdef] at harith
       have r5_ := harith.1 v hv
@@ -595,7 +595,7 @@ theorem cE_ok (lib : Placed p B) (Γ : Gam) (env : Env) (F D : Nat) :
       have hk : Keep p.w m (m4.writeLE rout p.w v) (F - o) :=
         (((k1.trans' (k2.mono (by omega))).trans' (k3.mono (by omega))).trans' (k4.mono (by omega))).trans'
           (Keep.write _ _ _ _ _ _ (by omega) (by omega))
-      obtain ⟨m', rf, kf, hvf⟩ := finish_ok (ck := ck) (B := B) hw fr o rout keep _ (m4.writeLE rout p.w v) v hrout hpl hreach hk
+      obtain ⟨m', rf, kf, hvf⟩ := finish_ok (ck := ck) (dA := dA) (B := B) hw fr o rout keep _ (m4.writeLE rout p.w v) v hrout hpl hreach hk
         (by rw [Mem.readLE_writeLE_same _ _ _ _ (by rw [k4.size, k3.size, k2.size, k1.size]; omega)]; exact Nat.mod_eq_of_lt hvM)
         ho hkD hoD
       exact ⟨m', rf, kf, hvf, fun hs => by simp [isSafe] at hs⟩
@@ -607,10 +607,10 @@ theorem cE_ok (lib : Placed p B) (Γ : Gam) (env : Env) (F D : Nat) :
       obtain ⟨m1, r1_, k1, hv1, _⟩ := ihl'.1 a hea
       have fr1 := fr.keep k1
       have hvars1 : VarsOK p.w Γ env m1 F (if p1 = true then o + p.w else o) := hvars.keep k1 (Nat.le_refl _) ho1
-      have ihr' := ihr (pc + c1.length) (if p1 = true then o + p.w else o) (cxOf p ck B).r1 false m1
+      have ihr' := ihr (pc + c1.length) (if p1 = true then o + p.w else o) (cxOf p ck B dA).r1 false m1
         (by rw [hcr]; exact hp2) (by rw [hcr]; show pc + c1.length + c2.length ≤ B; omega) (Or.inr rfl) fr1 hvars1 hbr hpkr' (by omega)
-      have hlocR := cE_loc (cxOf p ck B) Γ env m1 F D r (pc + c1.length) (if p1 = true then o + p.w else o)
-        (cxOf p ck B).r1 false hvars1 hbr hpkr' (by show p.w ≤ _; omega)
+      have hlocR := cE_loc (cxOf p ck B dA) Γ env m1 F D r (pc + c1.length) (if p1 = true then o + p.w else o)
+        (cxOf p ck B dA).r1 false hvars1 hbr hpkr' (by show p.w ≤ _; omega)
       rw [hcr] at ihr' hlocR
       simp only at ihr' hlocR
       cases heb : evalE (256 ^ p.w) (8 * p.w) env r with
@@ -637,10 +637,10 @@ theorem cE_ok (lib : Placed p B) (Γ : Gam) (env : Env) (F D : Nat) :
             simp only [Loc] at hlocl
             simp only [valOf] at hv1 ⊢
             rw [k2.read _ _ (by omega)]; exact hv1
-      have hgo2 := getOp_ok (ck := ck) (B := B) (pc := pc + (c1 ++ c2).length) hw fr2 (cxOf p ck B).r1 vr0
+      have hgo2 := getOp_ok (ck := ck) (dA := dA) (B := B) (pc := pc + (c1 ++ c2).length) hw fr2 (cxOf p ck B dA).r1 vr0
         (by show 2 * p.w ≤ 3 * p.w ∧ 3 * p.w + p.w ≤ 5 * p.w; omega)
         (hlocr.gettable (by show 3 * p.w + p.w ≤ 5 * p.w; omega)) (by rw [hg2]; exact hp2')
-      have hres2 := getOp_res (cxOf p ck B) hlocr
+      have hres2 := getOp_res (cxOf p ck B dA) hlocr
       rw [hg2] at hgo2 hres2
       obtain ⟨m3, r3_, k3, hv3, haway3, hargr⟩ := hgo2
       simp only at r3_ hv3 hargr hres2
@@ -648,7 +648,7 @@ theorem cE_ok (lib : Placed p B) (Γ : Gam) (env : Env) (F D : Nat) :
       have fr3 := fr2.keep k3
       have hvl3 : valOf p.w m3 F vl = a := by
         rw [haway3 vl (hlocl.away (d := 3 * p.w) (by show 2 * p.w + p.w ≤ 3 * p.w ∨ _; omega) (Nat.le_of_eq hroom) (by omega))]; exact hvl2
-      have hgo3 := getOp_ok (ck := ck) (B := B) (pc := pc + (c1 ++ c2 ++ c2').length) hw fr3 (cxOf p ck B).r0 vl
+      have hgo3 := getOp_ok (ck := ck) (dA := dA) (B := B) (pc := pc + (c1 ++ c2 ++ c2').length) hw fr3 (cxOf p ck B dA).r0 vl
         (by show 2 * p.w ≤ 2 * p.w ∧ 2 * p.w + p.w ≤ 5 * p.w; omega)
         (hlocl.gettable (by show 2 * p.w + p.w ≤ 5 * p.w; omega)) (by rw [hg3]; exact hp3)
       rw [hg3] at hgo3
@@ -662,7 +662,7 @@ theorem cE_ok (lib : Placed p B) (Γ : Gam) (env : Env) (F D : Nat) :
           · rw [hi]; trivial
           · rw [hi]; show 3 * p.w + p.w ≤ 2 * p.w ∨ 2 * p.w + p.w ≤ 3 * p.w; omega)]
         exact hv3
-      have harith := arith_ok (ck := ck) (pc := pc + (c1 ++ c2 ++ c2' ++ c3).length) lib fr4 op rout vl' vr a b
+      have harith := arith_ok (ck := ck) (dA := dA) (pc := pc + (c1 ++ c2 ++ c2' ++ c3).length) lib fr4 op rout vl' vr a b
         (by omega) hargl hargr hv4 hvr4 (by rw [hAdef]; exact hpA) (by rw [hAdef]; omega)
       have r5_ := harith.2 hn hck
       refine ⟨m4, ?_⟩
